@@ -261,29 +261,47 @@ def binary_session(app, cid, steps, selfplay=None, quit_during_search=False, wat
         nonlocal dead
         t0 = time.time()
         stop_sent = stop_after is None
-        best = None
+        logged = skipped = 0
+        last_msg = time.time()
         while True:
+            now = time.time()
+            if not stop_sent and (now - t0 >= stop_after / 1000.0 or logged >= 3000):
+                ev.append({"c": cid, "ev": "in", "cmd": "stop"})
+                pr.send("stop")
+                stop_sent = True
             if not stop_sent:
-                rem = stop_after / 1000.0 - (time.time() - t0)
-                line = pr.get(max(rem, 0.0005))
+                line = pr.get(max(stop_after / 1000.0 - (now - t0), 0.0002))
                 if line == "<timeout>":
-                    ev.append({"c": cid, "ev": "in", "cmd": "stop"})
-                    pr.send("stop")
-                    stop_sent = True
                     continue
             else:
-                line = pr.get(watchdog)
-            if line == "<timeout>":
-                ev.append({"c": cid, "ev": "timeout", "why": "no bestmove within %d s" % watchdog})
-                dead = True
-                return None
+                if logged >= 3000 and not stop_sent:
+                    pass
+                line = pr.get(max(watchdog - (now - last_msg), 0.001))
+                if line == "<timeout>":
+                    if time.time() - last_msg >= watchdog:
+                        ev.append({"c": cid, "ev": "timeout", "why": "no bestmove within %d s" % watchdog})
+                        dead = True
+                        return None
+                    continue
             if line is None:
                 ev.append({"c": cid, "ev": "timeout", "why": "engine process closed its output"})
                 dead = True
                 return None
-            ev.append({"c": cid, "ev": "out", "raw": line})
+            last_msg = time.time()
             if line.startswith("bestmove"):
+                if skipped:
+                    ev.append({"c": cid, "ev": "truncated", "skipped": skipped})
+                ev.append({"c": cid, "ev": "out", "raw": line})
                 return line.split()
+            if logged < 3000:
+                logged += 1
+                ev.append({"c": cid, "ev": "out", "raw": line})
+                if logged >= 3000 and not stop_sent:
+                    ev.append({"c": cid, "ev": "in", "cmd": "stop"})
+                    pr.send("stop")
+                    stop_sent = True
+            else:
+                skipped += 1
 
     def do_go(g):
         ev.append({"c": cid, "ev": "in", "cmd": "go", "searchmoves": g.get("searchmoves", []), "limited": limited(g), "params": g})
